@@ -352,6 +352,18 @@ def run_inprocess(ctx, case, problems):
             if (present and case["name"] != "SYMLINK-TO-DIR") or case["name"] == "SYMLINK-TO-FILE":
                 with open(dest, "wb") as f:
                     f.write(PREV_OF[0])
+            if fault is not None and injected % 5 == 2:
+                # history: an earlier save into this directory (a sibling file) whose final move the system refused with EBUSY
+                def busy(*a, **k):
+                    raise OSError(16, "Device or resource busy (injected, earlier call)")
+                os.replace = shutil.move = os.rename = busy
+                try:
+                    doc.serialize(os.path.join(os.path.dirname(dest) or ".", "sibling-of-an-earlier-call.out"), format=fmt, **kw)
+                except OSError:
+                    pass
+                finally:
+                    os.replace, shutil.move, os.rename = orig_replace, orig_move, orig_rename
+                ctx.count("history.earlier_save_refused_with_EBUSY")
             before = listing(box.dir, box.tmp)
             _audit["log"] = []
             _audit["on"] = True
